@@ -256,6 +256,8 @@ func c13wrappers() []c13wrapper {
 }
 
 // c13verify decodes b with the reference decoder and the library and checks class, procedure and carried arguments.
+var c13held held // the octets returned by the previous builder call, looked at again after the next one
+
 func c13verify(r *report.Report, codec *refper.Codec, s *refper.Schema, who, class, msg string, proc int64, uses string, a c13args, b []byte, cs string) {
 	tree, err := codec.Decode("NGAPPDU", refper.PDUTag, b)
 	if err != nil {
@@ -501,6 +503,7 @@ func runC13(ctx *Ctx) {
 			r.Violate("builder/"+who+"/encode-error/"+errClass(err), cs, err.Error(), nil)
 			return
 		}
+		c13held.next(r, "builder/result-changed-by-a-later-call", b, cs)
 		c13verify(r, codec, s, who, class, msg, proc, uses, v.a, b, cs)
 	}
 	relevant := func(uses string, v variant) bool {
